@@ -140,6 +140,10 @@ struct IcdState {
     clients: Vec<MonitoringRegistration, MAX_REGISTERED_CLIENTS>,
     /// The Check-In counter.
     counter: CheckInCounter,
+    /// The counter has moved its boundary but writing it to storage failed:
+    /// storage does not cover the values that follow. Nothing may be sent
+    /// with them until the boundary has been written.
+    counter_persist_due: bool,
     /// The instant until which a `StayActiveRequest` has asked this device to
     /// stay active, or `None` if no request is outstanding.
     stay_active_until: Option<Instant>,
@@ -150,6 +154,7 @@ impl IcdState {
         init!(Self {
             clients <- Vec::init(),
             counter: counter,
+            counter_persist_due: false,
             stay_active_until: None,
         })
     }
@@ -187,6 +192,7 @@ impl Icd {
             state: Mutex::new(RefCell::new(IcdState {
                 clients: Vec::new(),
                 counter,
+                counter_persist_due: false,
                 stay_active_until: None,
             })),
             mode,
@@ -450,15 +456,29 @@ impl Icd {
     ///
     /// Call once per Check-In *batch* (all messages in the batch used the same
     /// [`next_counter`](Self::next_counter) value).
+    ///
+    /// If the write fails, the error is returned and the boundary stays due:
+    /// [`send_check_in`](Self::send_check_in) writes it (via
+    /// [`persist_counter`](Self::persist_counter)) before it sends anything
+    /// else, and a caller driving the counter itself must do the same - the
+    /// values past the old boundary are not covered by storage, so a restart
+    /// would hand them out again.
     pub fn advance_counter<S: KvBlobStore>(&self, mut kv: S, buf: &mut [u8]) -> Result<(), Error> {
         let to_persist = self.state.lock(|s| s.borrow_mut().counter.advance());
 
         if let Some(value) = to_persist {
-            kv.store(
+            let stored = kv.store(
                 crate::persist::ICD_CHECK_IN_COUNTER_KEY,
                 &value.to_le_bytes(),
                 buf,
-            )?;
+            );
+
+            if stored.is_err() {
+                self.state
+                    .lock(|s| s.borrow_mut().counter_persist_due = true);
+            }
+
+            stored?;
         }
 
         Ok(())
@@ -485,7 +505,18 @@ impl Icd {
             crate::persist::ICD_CHECK_IN_COUNTER_KEY,
             &value.to_le_bytes(),
             buf,
-        )
+        )?;
+
+        // What is in storage now covers the current boundary (unless the counter was
+        // moved on in the meantime, in which case the write stays due).
+        self.state.lock(|s| {
+            let mut state = s.borrow_mut();
+            if state.counter.persist_value() == value {
+                state.counter_persist_due = false;
+            }
+        });
+
+        Ok(())
     }
 
     /// Load the persisted Check-In counter epoch and reset the counter to resume
@@ -563,9 +594,16 @@ impl Icd {
         matter: &Matter<'_>,
         crypto: C,
         subscriptions: &crate::im::subscriptions::Subscriptions<NS>,
-        kv: impl KvBlobStore,
+        mut kv: impl KvBlobStore,
         buf: &mut [u8],
     ) -> Result<(), Error> {
+        // An earlier batch moved the boundary but could not write it: storage
+        // does not cover the value this batch would use, and a restart would use
+        // it (and its nonce) a second time. Write it first, or send nothing.
+        if self.state.lock(|s| s.borrow().counter_persist_due) {
+            self.persist_counter(&mut kv, buf)?;
+        }
+
         // Snapshot the eligible clients under the lock — sending is `async`, so
         // neither the ICD nor the subscriptions lock may be held across an
         // `await`. The subscription-liveness check is a quick locked lookup.
